@@ -177,15 +177,25 @@ def match_known(pid, ob):
             continue
         if f.get("obligation") and f["obligation"] != ob.name:
             continue
-        mk = (ob.model or {}).get("key")
-        if f.get("key") is not None and f["key"] != mk:
+        m = ob.model or {}
+        mk = m.get("key")
+        if f.get("key") is not None:
+            if f["key"] != mk:
+                continue
+            return f
+        if f.get("function") is not None:
+            # function-level finding: the leak sits in an out-of-line function; any entry that reaches it shows it
+            if (f["function"] == m.get("function") and f.get("kind") == m.get("kind")
+                    and str(mk or "").startswith(str(f.get("configuration")) + "|")):
+                return f
             continue
         return f
     return None
 
 
 def write_replay(pid, ob):
-    d = os.path.join(VERIF, "replay")
+    d = os.environ.get("VERIF_REPLAY_DIR") or (os.path.join(os.environ["VERIF_EVIDENCE_DIR"], "replay")
+                                               if os.environ.get("VERIF_EVIDENCE_DIR") else os.path.join(VERIF, "replay"))
     os.makedirs(d, exist_ok=True)
     tag = ""
     k = (ob.model or {}).get("key")
